@@ -82,7 +82,10 @@ def expected(cfg, base, got_col, s0=0, xs=None):
         return one(R.hla(h, l, r), 0)
     if cls == "RSI":
         p = p or 14
-        return one(R.rsi(xs, p, r, H), p)
+        # RSI is a ratio: for quotes in very small units an implementation that kept its average gain/loss at 4 decimals would be
+        # plainly wrong, so that allowance is only made at ordinary price scales
+        lvl = sum(abs(x) for x in xs if x is not None) / max(1, sum(1 for x in xs if x is not None))
+        return one(R.rsi(xs, p, r, H if lvl >= 1e-2 else 14), p)
     if cls == "MACD":
         f, sl, sg = kw.get("fast_period", 12), kw.get("slow_period", 26), kw.get("signal_period", 9)
         if sl < f:
@@ -243,6 +246,7 @@ def check_supertrend(cfg, base, col, stats):
             if gv is None or abs(gv - e.v) > budget:
                 return {"kind": "value", "detail": f"candle {i}: {f}={gv} definition {e.v} (budget {budget:.3g}); direction {exp['direction']}", "field": f}, comp, 0
     stats["near_ties"] = stats.get("near_ties", 0) + ref.near_ties
+    stats["supertrend_exact_ties"] = stats.get("supertrend_exact_ties", 0) + ref.exact_ties
     stats["readings_compared"] = stats.get("readings_compared", 0) + comp
     return None, comp, 0
 
@@ -296,9 +300,15 @@ def gen_price_case(rng, tier, classes):
         cfg["kw"]["round_value"] = rng.choice([2, 3])
     else:
         cfg["kw"].pop("round_value", None)
+    if rng.random() < 0.04:
+        cfg["kw"]["name_suffix"] = rng.choice(["1.5", "v2.0", "a"])  # user-chosen name parts (dots included) must not change what is computed
     lb = configs.lookback(cfg)
     n = rng.randint(max(40, lb + 12), max(60, lb + 12, 300 if tier == "thorough" else 200))
     fam = rng.choice(["walk", "walk", "spiky", "flat_runs", "flat_start", "mono_start", "zero_vol", "zero_vol_start", "equal_vol", "trend_up", "trend_down", "plateau", "scale", "dyadic"])
+    if cls in ("RSI", "ROC", "AROON", "STOCH") and rng.random() < 0.06:
+        fam = "tiny"
+    if cls in ("VWAP", "VWMA", "OBV") and rng.random() < 0.15:
+        fam = "frac_vol"
     if fam in ("zero_vol", "zero_vol_start") and cls in configs.VOLUME_OK and rng.random() < 0.6:
         cfg["kw"]["input_value"] = "volume"  # a legitimately zero input is what these families are for
     if rng.random() < 0.2:
